@@ -113,7 +113,9 @@ class StopScenario(cmdscn.CmdScenario):
         cancelled_trees = set()
         for wid, st in env.W.extra['stopped'].items():
             if st == 'CANCELLED':
-                cancelled_trees |= descendants(pre, wid) | {wid}
+                # (post: a sub-workflow created in this very step below the
+                # cancelled execution counts)
+                cancelled_trees |= descendants(post, wid) | {wid}
         for t in post['task_executions_v2']:
             if t['id'] in pre_t:
                 continue
@@ -212,6 +214,13 @@ def programs():
         {'a': T(workflow='sub', **{'with-items': 'i in <% $.xs %>',
                                    'on-success': ['b']}), 'b': T()},
         input={'xs': [1, 2]}, subs={'sub': direct({'s1': T(key='s1')})})
+    # a join that runs a sub-workflow: it is created (WAITING) before the
+    # stop and must not start a child below a cancelled execution when its
+    # pending re-evaluation runs afterwards
+    P['join_subwf'] = direct(
+        {'a': T(**{'on-success': ['j']}), 'b': T(**{'on-success': ['j']}),
+         'j': T(workflow='sub', join='all')},
+        subs={'sub': direct({'s1': T(key='s1')})})
     # a result that arrives after the stop and cannot be handled (its
     # publish clause fails): the late failure must not touch the stopped
     # execution
